@@ -132,6 +132,10 @@ class SoftwareManager:
                 config=software_config,
             )
 
+        if software.name in self.software:
+            # installing software that is already present replaces the installed instance
+            self.uninstall(software.name)
+
         software.parent = self.node
         if isinstance(software, Application):
             self.node.applications[software.uuid] = software
